@@ -311,6 +311,52 @@ func aliasProbes() []any {
 		&mocrelay.ServerAuthMsg{Challenge: "alias probe"}, mocrelay.NewServerCountMsg("alias-probe", 77, nil), mocrelay.NewServerClosedMsg("alias-probe", "", "alias probe")}
 }
 
+// c10Sibling returns a copy of v whose event keeps id and sig but differs in one other
+// field (nil when v carries no event).
+func c10Sibling(t *rapid.T, v any) any {
+	var e *mocrelay.Event
+	switch x := v.(type) {
+	case *mocrelay.Event:
+		e = x
+	case *mocrelay.ClientEventMsg:
+		e = x.Event
+	case *mocrelay.ClientAuthMsg:
+		e = x.Event
+	case *mocrelay.ServerEventMsg:
+		e = x.Event
+	}
+	if e == nil {
+		return nil
+	}
+	s := gen.CloneEvent(e)
+	switch rapid.SampledFrom([]string{"content", "created_at", "kind", "tags", "pubkey"}).Draw(t, "sibling") {
+	case "content":
+		s.Content += "~"
+	case "created_at":
+		s.CreatedAt++
+	case "kind":
+		s.Kind ^= 1
+	case "tags":
+		s.Tags = append(s.Tags, mocrelay.Tag{"sibling"})
+	case "pubkey":
+		s.Pubkey = strings.Repeat("ab", 32)
+		if e.Pubkey == s.Pubkey {
+			s.Pubkey = strings.Repeat("cd", 32)
+		}
+	}
+	switch x := v.(type) {
+	case *mocrelay.Event:
+		return s
+	case *mocrelay.ClientEventMsg:
+		return &mocrelay.ClientEventMsg{Event: s}
+	case *mocrelay.ClientAuthMsg:
+		return &mocrelay.ClientAuthMsg{Event: s}
+	case *mocrelay.ServerEventMsg:
+		return mocrelay.NewServerEventMsg(x.SubscriptionID, s)
+	}
+	return nil
+}
+
 func TestC10RoundTripValues(t *testing.T) {
 	col := ev.For("C10").SetRule(c10Rule)
 	rapid.Check(t, func(t *rapid.T) {
@@ -387,6 +433,28 @@ func TestC10RoundTripValues(t *testing.T) {
 				hx.Fail(t, ev.Failure{Property: "C10", Signature: "encode-aliasing", Clause: "an encoded text stays what it was when further values are encoded (" + typ + ")",
 					Case: map[string]any{"value": gen.Norm(v)}, Observed: string(b1), Expected: string(keep)})
 			}
+		}
+		// a value is encoded from its own fields, not from what an earlier value with the same
+		// id and signature looked like (the codec handles unverified values: two events may
+		// share id and sig and differ elsewhere)
+		if sib := c10Sibling(t, v); sib != nil {
+			enc2, err := json.Marshal(sib)
+			want2 := hx.JSON(gen.Norm(sib))
+			ok2 := err == nil
+			if ok2 {
+				ok2 = false
+				for _, d := range c10Decoders {
+					if "*mocrelay."+d.name == typ {
+						g, derr, p := safeDecode(d, enc2)
+						ok2 = derr == nil && p == nil && hx.JSON(gen.Norm(g)) == want2
+					}
+				}
+			}
+			if !ok2 {
+				hx.Fail(t, ev.Failure{Property: "C10", Signature: "roundtrip-sibling", Clause: "encoding and decoding again yields an equal value, also right after a value that shares its event's id and signature was encoded (" + typ + ")",
+					Case: map[string]any{"first": gen.Norm(v), "second": gen.Norm(sib)}, Observed: fmt.Sprintf("%s err=%v", enc2, err), Expected: want2})
+			}
+			col.Label("roundtrip:sibling-event")
 		}
 		// the encoding must be plain JSON an independent decoder understands
 		var generic any
